@@ -246,6 +246,10 @@ type Stmt struct {
 	Cmd     string // command name
 	CmdArgs []CmdArg
 	CmdTags []string
+	// CmdSeps[i] separates word i from what precedes it (default one space); CmdLead / CmdTrail are
+	// written after << and before >> (layout of generic commands, C17).
+	CmdSeps           []string
+	CmdLead, CmdTrail string
 }
 
 // Node of a program.
